@@ -57,22 +57,26 @@ class Guard(CallbackListener):
         self.n = 0
         super().__init__()
 
-    def arm(self, k):
+    def arm(self, k, what="add"):
         self.armed = k
+        self.what = what
         self.n = 0
 
-    def _tick(self):
-        if self.armed is not None:
+    def _tick(self, what):
+        if self.armed is not None and what == getattr(self, "what", "add"):
             if self.n == self.armed:
                 self.armed = None
                 raise ValueError("vetoed by the guard listener")
             self.n += 1
 
     def port_add_pin(self, port, pin):
-        self._tick()
+        self._tick("add")
 
     def cable_add_wire(self, cable, wire):
-        self._tick()
+        self._tick("add")
+
+    def instance_reference(self, instance, reference):
+        self._tick("ref")
 
 
 class OneShot(CallbackListener):
@@ -471,7 +475,7 @@ def run_script(ops_or_len, rng, profile, drv, res, with_listeners=True, outcomes
             # expected: the model's structural announcements + constructor announcements of objects built inside the call
             exp = [e for e in m["events"]]
             created = []
-            if out == "ok" or op.get("veto") or op.get("veto_at") is not None:
+            if out == "ok" or op.get("veto") or op.get("veto_at") is not None or op.get("veto_ref"):
                 t = op["t"]
                 if op.get("create"):
                     kind = {"addLibrary": "library", "addDefinition": "definition", "addPort": "port", "addCable": "cable", "addPin": "pin", "addWire": "wire"}[t]
@@ -506,12 +510,12 @@ def run_script(ops_or_len, rng, profile, drv, res, with_listeners=True, outcomes
             else:
                 got_cmp, exp_cmp = got, exp
             # ---- P: nothing announced for a call that was refused by a precondition
-            if op.get("veto_at") is not None:
+            if op.get("veto_at") is not None or op.get("veto_ref"):
                 pass       # "(unless another listener vetoes it)": what took effect before the veto was announced and is compared below
             elif out == "assert" and got:
                 findings.append({"kind": "spec", "signature": "%s.refused_assert.announced" % op["t"], "step": k,
                                  "detail": "refused call announced %s" % got[:3]})
-            elif out not in ("ok", "assert", "value") and got and op.get("veto_at") is None:
+            elif out not in ("ok", "assert", "value") and got and op.get("veto_at") is None and not op.get("veto_ref"):
                 findings.append({"kind": "spec", "signature": "%s.refused_%s.announced" % (op["t"], out), "step": k, "detail": "refused call announced %s" % got[:3]})
             # ---- P: announced before it takes effect
             for (name, vis) in sink.early:
